@@ -2,7 +2,7 @@
 
 from __future__ import annotations
 
-from .. import probe
+from .. import gen, probe
 from ..mon_misc import spec_is_ncname, spec_is_w3c_curie
 from .common import call
 
@@ -97,6 +97,14 @@ def check(ctx, s):
 
     call(w3c.is_w3c_prefix, s)
     call(w3c.is_w3c_curie, s)
+    ctx.n_checked = getattr(ctx, "n_checked", 0) + 1
+    if ctx.n_checked % 9 == 0:
+        # the same characters carried by str subclasses (a plain one; one whose str() is not its text, like a member of
+        # a str-valued Enum): the validators are asked about the characters of the string
+        for cls in (gen.Str, gen.Weird):
+            call(w3c.is_w3c_prefix, cls(s))
+            call(w3c.is_w3c_curie, cls(s))
+        probe.S.counters["wl:str-subclass-inputs"] += 2
     for fn, want in (("p", spec_is_ncname(s)), ("c", spec_is_w3c_curie(s))):
         k, nt = key_of(fn, s, want)
         probe.note_key(k, nt)
